@@ -35,6 +35,9 @@ def sentinels(opt, n):
     if t == 'style-normal':
         return ['normal %d' % (17 + i) for i in range(n)]
     if t == 'bool':
+        if _BOOL_PATTERN[0] is not None:
+            k, v = _BOOL_PATTERN[0] % 3, 'true' if _BOOL_PATTERN[0] < 3 else 'false'
+            return [v if i == k else ('false' if v == 'true' else 'true') for i in range(n)]
         return ['true', 'false'] * ((n + 1) // 2)
     if t == 'usize':
         return [str(11 + i) for i in range(n)]
@@ -198,7 +201,7 @@ def enable_list(p, feats, how):
         raise ValueError(how)
 
 
-def families():
+def _families():
     """Deterministic small-scope enumeration: yields (family, params)."""
     opts = sorted(OPTIONS)
     for o in opts:
@@ -257,7 +260,31 @@ def families():
         yield ('determinism-flags', (combo, 'feature'))
 
 
+def families():
+    """_families(), plus for boolean options every placement once more per polarity pattern: exactly one source holds the
+    value v, all the others hold not-v (with alternating values a swap of two sources can stay invisible)."""
+    for fam, params in _families():
+        yield (fam, params)
+        o = params[0] if params and isinstance(params[0], str) else None
+        if o in OPTIONS and OPTIONS[o] == 'bool' and fam in ('cli-wins', 'main-wins', 'last-listed', 'repeated', 'no-gitconfig', 'config-location'):
+            for variant in range(6):
+                yield ('bool-pattern', (fam, params, variant))
+
+
+_BOOL_PATTERN = [None]
+
+
 def build(family, params, defaults):
+    if family == 'bool-pattern':
+        fam, inner, variant = params
+        _BOOL_PATTERN[0] = variant
+        try:
+            p = build(fam, inner, defaults)
+        finally:
+            _BOOL_PATTERN[0] = None
+        if p is not None:
+            p.family = 'bool-pattern:' + fam
+        return p
     if family == 'cli-wins':
         o, combo = params
         S = sentinels(o, 6)
